@@ -55,7 +55,7 @@ ALPHA = (
     + ["a", "b", "+", ":", "(", ")", " "] * 3
 )
 
-BIG_EXP = re.compile(r"(\*\*|\^)[\s(\[+\-]*0*([5-9]|[1-9]\d)")
+BIG_EXP = re.compile(r"(\*\s*\*|\^)[\s(\[+\-]*0*([5-9]|[1-9]\d)")  # (whitespace does not split an operator token)
 
 
 class _Timeout(Exception):
